@@ -372,3 +372,29 @@ def shared_split_rectangles(ctx: Ctx) -> None:
     from . import C11 as _c11
     from .common import support
     support(ctx, [_c11.r2, _c11.r3], {"split_rectangles"})
+
+
+@rule("C03", "R10.shapes-as-described", "EFFECT",
+      "the shapes the ratios are computed from are the ones the netlist describes (the rectangles of a module, or the default "
+      "square around its centre): building the initial allocation moves or resizes nothing -- create_initial_allocation and "
+      "Allocation.initial_allocation (and the helpers cut out of them) store no attribute of a rectangle, module, point or shape; "
+      "the only thing they write is the occupancy map under construction", floor=2)
+def r10_shapes(ctx: Ctx) -> None:
+    from .common import new_helper_calls
+    entry = [ctx.func(ALLOC, "create_initial_allocation"), ctx.func(ALLOC, "Allocation.initial_allocation")]
+    todo = list(entry)
+    for f in entry:
+        todo += [h for h, _ in new_helper_calls(ctx, f)]
+    for f in todo:
+        stores = [n for n in walk_own(f.node) if isinstance(n, ast.Attribute) and isinstance(n.ctx, (ast.Store, ast.Del))
+                  and not (isinstance(n.value, ast.Name) and n.value.id == "self")]
+        moves = [c for c in walk_own(f.node) if isinstance(c, ast.Call) and isinstance(c.func, ast.Attribute)
+                 and c.func.attr in ("recenter_rectangles", "create_square", "flip", "rotate", "setup", "calculate_center_from_rectangles") ]
+        ctx.site(f.where, "stores no attribute of a geometric object; moves nothing", attribute_stores=len(stores), moving_calls=len(moves))
+        for n in stores:
+            ctx.report(f.where, f"shape-moved {ast.unparse(n)[:50]}", f"{f.qualname} writes {ast.unparse(n)[:40]} while the initial allocation is built: the ratios are "
+                       "then computed from a shape that is not the one the netlist describes (a default square pushed inside the die, a clipped "
+                       "rectangle)", lineno=n.lineno)
+        for c in moves:
+            ctx.report(f.where, f"shape-moved {ast.unparse(c)[:50]}", f"{f.qualname} calls {c.func.attr}(): the shapes are changed while the initial allocation is built",
+                       lineno=c.lineno)
